@@ -7,6 +7,20 @@ import os
 ROOT = os.path.dirname(os.path.dirname(os.path.abspath(__file__)))
 
 CHECKS = {
+    'C04': dict(
+        category='exploration',
+        text='Model-based testing of histories of public Circuit editing calls (37-call alphabet, selectors resolved against the live state so every argument value incl. negative/out-of-range indices occurs): after every call the flattened per-qudit operation sequences of the real circuit are compared with those a list-of-cycles reference semantics predicts from the pre-call grid and the documented effect of the call; documented positional facts and return values, unitary invariance of structure-only calls, inverse-composes-to-identity and atomicity of rejected calls are checked as well. Failing histories are shrunk by Hypothesis.',
+        design_ref='DESIGN.md §4 C04, §3.2, §3.4',
+        note='Trusted: the grid read API (validated by C05), Gate.get_unitary (C18), vt/oracle/trace.py. Exploration only: thousands of histories per run, no exhaustiveness.',
+        technique='model-based (stateful) property testing with Hypothesis: generated call histories vs list-of-cycles trace model',
+    ),
+    'C05': dict(
+        category='exploration',
+        text='The same generated editing histories as C04 plus an exhaustive enumeration of all histories of length <=3 (quick) / <=4 (thorough) over a 28-call reduced alphabet on 2-3 qubits; after EVERY step all derived views (next/prev/front/rear/first_on/last_on, counters, coupling graph, depth, params, forward/reverse/with-cycles iteration) are recomputed from the grid through the public read API and compared, and any exception other than a documented rejection is a violation keyed by its innermost bqskit frame.',
+        design_ref='DESIGN.md §4 C05',
+        note='Trusted: the grid (operation at cycle,qudit) as primary view. The exhaustive part is complete only for the stated alphabet/length; the rest is exploration.',
+        technique='invariant checking over generated and exhaustively enumerated call histories (Hypothesis + itertools.product)',
+    ),
     'C20': dict(
         category='exploration',
         text='Exhaustive enumeration of all labelled graphs on <=5 (quick) / <=6 (thorough) vertices and all qudit permutations of <=4/<=5 qudits, plus Hypothesis-generated graphs to 15 vertices, weighted/remote edges, sub-graph renumberings, embedding pairs, Kronecker/power/apply sequences; each judged against textbook reference algorithms and explicit index arithmetic written independently of the code under test.',
